@@ -97,6 +97,7 @@ type Val struct {
 	Fn   *ssa.Function
 	Clo  []Val
 	Bltn string
+	Lazy bool // Loc is read at evaluation time (captured variables in contracts)
 }
 
 type pathStep struct {
